@@ -478,6 +478,13 @@ def run_check(mod, argv):
             known_hits.setdefault(k["id"], (k, mm))
         else:
             violations.append((mm, "property-fails-on-implementation"))
+    # shrink the first concrete failing history to a minimal op sequence (modules whose lines are
+    # `op a|b|c` histories declare SHRINK_SEP = "|")
+    if violations and getattr(mod, "SHRINK_SEP", None):
+        try:
+            violations[0] = (shrink_case(mod, violations[0][0], violations[0][1]), violations[0][1])
+        except Exception as e:  # shrinking is best effort
+            ctx.notes.append("shrink failed: %r" % (e,))
     rc = 0
     os.makedirs(os.path.join(VERIF, "replays"), exist_ok=True)
     replay_path = os.path.join("replays", "%s-%s-%d.json" % (prop, tier, seed))
@@ -545,6 +552,46 @@ def run_check(mod, argv):
         prop, tier, discharged, obligations, ctx.evaluations, len(ctx.distinct), len(known_hits),
         time.time() - ctx.t0, rc))
     return rc
+
+
+def shrink_case(mod, case, kind, budget=150):
+    """greedy delta-debugging on the last argument's SHRINK_SEP-separated ops"""
+    sep = mod.SHRINK_SEP
+    _init_worker(mod.__name__)
+    head, _, hist = case["line"].rpartition(" ")
+    parts = hist.split(sep)
+    use_model = kind == "correspondence-broken"
+
+    def failing(line):
+        (io, oo, nt), = _eval_chunk([line])
+        if io.startswith("HARNESS-FAULT") or (oo or "").startswith("ORACLE-FAULT"):
+            return None
+        if use_model:
+            mo = run_driver([line])[0]
+            return {"line": line, "impl": io, "oracle": oo, "model": mo, "stream": case.get("stream")} if mo != io and mo != "bad-op" else None
+        if oo is not None and oo != io:
+            mo = run_driver([line])[0] if driver_available() else None
+            return {"line": line, "impl": io, "oracle": oo, "model": mo, "stream": case.get("stream")}
+        return None
+
+    best = case
+    changed = True
+    while changed and budget > 0:
+        changed = False
+        for i in range(len(parts)):
+            cand = parts[:i] + parts[i + 1:]
+            if not cand:
+                continue
+            budget -= 1
+            r = failing(head + " " + sep.join(cand))
+            if r is not None:
+                parts, best, changed = cand, r, True
+                break
+            if budget <= 0:
+                break
+    if best is not case:
+        best["shrunk_from"] = case["line"]
+    return best
 
 
 def run_replay(mod, path):
